@@ -14,6 +14,8 @@ val flat_map : ('a1 -> 'a2 list) -> 'a1 list -> 'a2 list
 
 val fold_left : ('a1 -> 'a2 -> 'a1) -> 'a2 list -> 'a1 -> 'a1
 
+val existsb : ('a1 -> bool) -> 'a1 list -> bool
+
 val forallb : ('a1 -> bool) -> 'a1 list -> bool
 
 val repeat : 'a1 -> nat -> 'a1 list
